@@ -5,7 +5,7 @@ devices: annet.diff.collapse_diffs / gen_sort_diff / api.Deployer.diff_lines) is
 import copy
 import random
 
-from harness import c03glue, rbgen
+from harness import c03glue, c03multiline, rbgen
 
 ID = "C03"
 RULE = ("(rulebook text, vendor, old, new): random patching rulebooks over the rule grammar (nesting<=3, %global, %ordered, "
@@ -18,15 +18,17 @@ RULE = ("(rulebook text, vendor, old, new): random patching rulebooks over the r
         "filediff (shipped rulebooks of arista/huawei/cisco/nexus/iosxr/juniper through api.file_diff_worker on real files "
         "rendered from a universe of vendor-shaped blocks of which old and new are correlated selections), collapse (2-6 devices "
         "whose diffs come in families - identical, identical with other context, same flattened lines under another nesting, "
-        "different - through annet.diff.collapse_diffs, gen_sort_diff and api.Deployer.diff_lines)")
+        "different - through annet.diff.collapse_diffs, gen_sort_diff and api.Deployer.diff_lines), multiline (Huawei configs with "
+        "several `rsa|dsa peer-public-key <name>` blocks, bodies of 0-3 levels, blocks removed / added / changed / reordered / "
+        "unchanged, empty bodies included, through make_diff with the shipped rulebook and common.multiline_diff directly)")
 TRUSTED_BASE = [
     "Lean 4.33 kernel; axioms per theorem listed (subset of propext, Classical.choice, Quot.sound)",
     "rule rows matched by Model/Pattern.lean (tied to CPython re by C07); tabparser/valkit executed, not modelled",
     "harness/rbgen.py + harness/props/c03.py (generators, canonical dumps, oracle) and the compiled Lean driver",
 ]
 ASSUMPTIONS = [
-    "standard diff logics only (default_diff, ordered_diff, rewrite_diff); vendor %diff_logic functions and %multiline are out "
-    "of scope by the property text", "no ACL (acl_rules_list = [])", "no %ignore_case / %comment / %context rules",
+    "standard diff logics only (default_diff, ordered_diff, rewrite_diff) and %multiline (common.multiline_diff, kind multiline, "
+    "Model/Multiline.lean, top-level blocks); vendor %diff_logic functions are out of scope by the property text", "no ACL (acl_rules_list = [])", "no %ignore_case / %comment / %context rules",
     "filediff: the projection clause is checked on the text only when every row of the pair is compared by a standard diff logic "
     "(label filediff:projection-clause=...); the read-back clause is checked always",
     "collapse: the devices' diffs are given to the grouping code directly (strip_unchanged(make_diff(old, new, R, []))), as "
@@ -47,6 +49,7 @@ def shards(tier, seed):
     out += [dict(kind="fileglue", seed=seed * 1000 + 800 + i, n=150 if tier == "quick" else 5000) for i in range(4)]
     out += [dict(kind="filediff", seed=seed * 1000 + 820 + i, n=60 if tier == "quick" else 1000) for i in range(6)]
     out += [dict(kind="collapse", seed=seed * 1000 + 840 + i, n=60 if tier == "quick" else 1000) for i in range(6)]
+    out += [dict(kind="multiline", seed=seed * 1000 + 860 + i, n=250 if tier == "quick" else 8000) for i in range(4)]
     if tier == "quick":
         out += [dict(kind="small", part=(seed * 4 + i) % 256, parts=256) for i in range(4)]
     else:
@@ -120,6 +123,11 @@ def gen(desc):
         for _ in range(desc["n"]):
             yield g(rng)
         return
+    if desc.get("kind") == "multiline":
+        rng = random.Random(desc["seed"])
+        for _ in range(desc["n"]):
+            yield c03multiline.gen_case(rng)
+        return
     if desc.get("kind") == "chain":
         rng = random.Random(desc["seed"])
         for _ in range(desc["n"]):
@@ -144,6 +152,10 @@ def run_diff(case):
         d = patching.make_diff(old, new, rb, [])
     except AssertionError as e:
         return rb, None, {"err": "AssertionError"}
+    # the diff describes the configurations the caller holds: make_diff must leave them as they were (rows no rule knows
+    # are dropped from private copies only); a second diff of the same objects would otherwise describe something else
+    run_diff.mutated = [side for side, t, given in (("old", old, case["old"]), ("new", new, case["new"]))
+                        if rbgen.to_list(t) != rbgen.to_list(rbgen.to_odict(given))]
     return rb, d, None
 
 
@@ -161,6 +173,8 @@ def _formatters(case):
 
 def impl(case):
     kind = case.get("kind")
+    if kind == "multiline":
+        return c03multiline.impl(case)
     if kind == "filediff":
         return c03glue.impl_filediff(case)
     if kind == "collapse":
@@ -183,6 +197,8 @@ def impl_direct(case):
         return err
     stripped = patching.strip_unchanged(d)
     out = {"diff": rbgen.dump_diff(d), "stripped": rbgen.dump_diff(stripped)}
+    if getattr(run_diff, "mutated", None):
+        out["mutated"] = list(run_diff.mutated)
     # the two text views of the stripped diff, produced by the real code; the flag says whether the harness's reader
     # gets the entries back (the Lean side answers the same question with its own reader)
     texts = []
@@ -205,6 +221,8 @@ def impl_direct(case):
 
 def requests(case):
     rbgen.setup()
+    if case.get("kind") == "multiline":
+        return c03multiline.requests(case)
     if case.get("kind") == "filediff" or (case.get("kind") == "collapse" and case["rb"] != "nest"):
         return []       # shipped rulebooks: vendor logic and regular expressions outside the modelled rule language
     if case.get("kind") == "collapse":
@@ -227,6 +245,8 @@ def _diff_request(case):
 
 
 def model(case, resp):
+    if case.get("kind") == "multiline":
+        return c03multiline.model(case, resp)
     if case.get("kind") == "collapse":
         if any(x.get("grammar") is False for x in resp):
             return {"skip": True}
@@ -416,6 +436,8 @@ def oracle(case, r):
     from annet.annlib import patching
     from annet.vendors import registry_connector
     rbgen.setup()
+    if case.get("kind") == "multiline":
+        return _uniq(c03multiline.oracle(case, r))
     if case.get("kind") == "filediff":
         return _uniq(c03glue.oracle_filediff(case, r))
     if case.get("kind") == "collapse":
@@ -424,6 +446,10 @@ def oracle(case, r):
         return []
     rb, d, err = run_diff(case)
     out = []
+    if r.get("mutated"):
+        out.append(dict(sig="make_diff-changed-the-callers-config", what="after make_diff(old, new, rb) the caller's %s no longer "
+                        "equals what was passed in: the diff describes a configuration the caller does not hold (a later diff of "
+                        "the same objects loses those lines)" % " and ".join(r["mutated"])))
     old, new, pre = restricted(case, rb)
     # "restricted to lines the rulebook knows" must not be decided by the code under test alone: what apply_diff_rb keeps
     # against the rule language's reading of the rule text
@@ -490,6 +516,8 @@ def _uniq(out):
 
 
 def nontrivial(case, r):
+    if case.get("kind") == "multiline":
+        return c03multiline.nontrivial(case, r)
     if case.get("kind") == "filediff":
         return len(r.get("view", [])) >= 2 and any(ln[1:].startswith("  ") for ln in r["view"])
     if case.get("kind") == "collapse":
@@ -510,6 +538,8 @@ def nontrivial(case, r):
 
 
 def stats(case, r):
+    if case.get("kind") == "multiline":
+        return c03multiline.stats(case, r)
     if case.get("kind") == "filediff":
         return c03glue.stats_filediff(case, r)
     if case.get("kind") == "collapse":
@@ -546,6 +576,9 @@ def stats(case, r):
 
 
 def shrink_candidates(case):
+    if case.get("kind") == "multiline":
+        yield from c03multiline.shrink(case)
+        return
     if case.get("kind") == "collapse":
         yield from c03glue.shrink_collapse(case)
         return
